@@ -42,6 +42,11 @@ EXEMPT_FRESH[("Instantiator.from_designspace", "$1.append(($2, {$3.name: $3 for 
     "the instantiator's source layers are replaced by the pre-processor's glyph copies before any filter runs "
     "(linked obligation R07.7: BaseInterpolatablePreProcessor.__init__ calls _update_instantiator() right after building "
     "the glyph sets, before any _run)")
+# an exemption limited to some elements of the inserted tuple: the layer dict (index 1) is replaced by glyph copies, the source's
+# location dict (index 0) is the caller's own object and stays tracked
+# (not used for the instantiator's (location, layer) tuples: the engine keeps one abstract element per container, so limiting the
+#  exemption to the layer would taint the layer through the location; the locations are covered by R07.8 instead)
+EXEMPT_FRESH_ELEMS = {}
 # write events that are only reachable under an option which a linked obligation ties to inplace
 EXEMPT_WRITES = {
     ("CubicToQuadraticFilter.__call__", "$1[CURVE_TYPE_LIB_KEY] = 'quadratic'"):
@@ -68,7 +73,7 @@ def build(prog, seeds=None, roots=None, extra_assume=(), cut=None):
             if f.name == "__init__" and f.module.name == "ufo2ft.outlineCompiler" and "notdefGlyph" in f.params():
                 seeds.setdefault(f.qname, {})["notdefGlyph"] = "deep"
     o = Ownership(prog, seeds, assume_not_none=list(ASSUME_NOT_NONE) + list(extra_assume), value_calls=VALUE_CALLS,
-                  exempt_fresh=EXEMPT_FRESH.keys(), tag_returns=TAG_RETURNS, cut=cut, assume_attr_not_none=("compiler",))
+                  exempt_fresh={k: EXEMPT_FRESH_ELEMS.get(k) for k in EXEMPT_FRESH}, tag_returns=TAG_RETURNS, cut=cut, assume_attr_not_none=("compiler",))
     o.run(roots)
     return o
 
@@ -81,6 +86,7 @@ def run(prog, chk):
         "glyph / layer copies are complete: every mutable field of the copy is a fresh constructor or deepcopy of the source field (R07.3)",
         "compile_variable rebinds the document to deepcopyExceptFonts() before anything writes to it (R07.4)",
         "rememberCurveType is only ever passed as a conjunction with inplace (R07.5)",
+        "nothing writes into a designspace source's location dictionary (the instantiator shares them with the caller's document) (R07.8)",
         "assumptions of the analysis are themselves checked: filters are always called with a glyph set; reviewed exemptions still match the code (R07.7)",
     ]
     chk.not_decided += ["mutation inside third-party callees other than the listed ones", "equality of values (only writes are tracked)"]
@@ -126,6 +132,7 @@ def run(prog, chk):
     chk.guard(r074, prog, chk, o, vkeys)
     chk.guard(r075, prog, chk)
     chk.guard(r077, prog, chk, o)
+    chk.guard(r078, prog, chk)
 
 
 # ----------------------------------------------------------------------------- R07.2
@@ -355,7 +362,62 @@ def r077(prog, chk, o):
     chk.minimum("R07.7", 8)
 
 
+
+# ----------------------------------------------------------------------------- R07.8
+LOCATION_MUTATORS = {"setdefault", "update", "pop", "popitem", "clear", "__setitem__", "__delitem__"}
+
+
+def r078(prog, chk):
+    """The location dictionaries of the caller's designspace sources are stored by reference in the instantiator
+    (source_layers holds (source.location, layer) pairs; the pair's layer is exempted above, its location is not copied):
+    nothing in the package writes to a source location - neither through `<x>.location` / `.designLocation` nor through a
+    name unpacked from an element of source_layers."""
+    ix = prog.ix
+    n = 0
+    for fi in ix.functions.values():
+        if isinstance(fi.node, ast.Lambda):
+            continue
+        loc_names = set()
+        for node in A.body_nodes(fi.node):
+            it, tgt = None, None
+            if isinstance(node, ast.For):
+                it, tgt = node.iter, node.target
+            elif isinstance(node, ast.comprehension):
+                it, tgt = node.iter, node.target
+            if it is None or "source_layers" not in T(it):
+                continue
+            t_ = tgt
+            if isinstance(t_, ast.Tuple) and len(t_.elts) == 2 and isinstance(t_.elts[1], ast.Tuple) and "enumerate" in T(it):
+                t_ = t_.elts[1]
+            if isinstance(t_, ast.Tuple) and t_.elts and isinstance(t_.elts[0], ast.Name):
+                loc_names.add(t_.elts[0].id)
+
+        def is_location(e):
+            return (isinstance(e, ast.Attribute) and e.attr in ("location", "designLocation") and not (isinstance(e.value, ast.Name) and e.value.id == "self")) \
+                or (isinstance(e, ast.Name) and e.id in loc_names)
+        for node in A.body_nodes(fi.node):
+            bad = None
+            if isinstance(node, ast.Call) and isinstance(node.func, ast.Attribute) and node.func.attr in LOCATION_MUTATORS and is_location(node.func.value):
+                bad = node
+            elif isinstance(node, (ast.Assign, ast.AugAssign, ast.Delete)):
+                ts_ = node.targets if isinstance(node, (ast.Assign, ast.Delete)) else [node.target]
+                if any(isinstance(t, ast.Subscript) and is_location(t.value) for t in ts_):
+                    bad = node
+            if bad is not None:
+                n += 1
+                # writes to the document copy made by compile_variable are the package's own business (R07.4)
+                chk.ob("R07.8", f"{fi.short}|{A.keytext(fi.node, bad)}|source locations are never written", False, where(fi, bad), detail=T(bad, 70),
+                       message=f"{fi.short}: `{T(bad, 60)}` writes into a designspace source's location dictionary, which the instantiator shares with the caller's document "
+                               f"(inplace=False does not copy it)")
+    fd = ix.get_method("ufo2ft.instantiator.Instantiator", "from_designspace", own=True)
+    shared = [c for c in A.body_nodes(fd.node) if isinstance(c, ast.Call) and A.callee_name(c) == "append" and "source_layers" in T(c.func.value)]
+    chk.ob("R07.8", f"{fd.short}|source locations are shared, not copied (this is why nobody may write them)", bool(shared), where(fd), detail=f"{n} write(s) found", nontrivial=False)
+    chk.minimum("R07.8", 1)
+
+
 MUTANTS = [
+    M("source locations completed in place with the axis defaults (seeded C07g)", "ufo2ft/instantiator.py", "Instantiator.__post_init__",
+      "default_source_idx = i\nbreak", "location.setdefault('wght', 0)\ndefault_source_idx = i\nbreak", rule="R07.8"),
     M("glyph copy shares lib with the source", "ufo2ft/util.py", "_copyGlyph", "copy.lib = deepcopy(glyph.lib)", "copy.lib = glyph.lib", rule="R07"),
     M("glyph copy shares the unicodes list", "ufo2ft/util.py", "_copyGlyph", "copy.unicodes = list(glyph.unicodes)", "copy.unicodes = glyph.unicodes", rule="R07"),
     M("glyph copy shares anchor objects", "ufo2ft/util.py", "_copyGlyph", "copy.anchors = [dict(a) for a in glyph.anchors]", "copy.anchors = list(glyph.anchors)", rule="R07"),
